@@ -237,6 +237,56 @@ def expr_poly(e, env):
     raise Undecided(U(e))
 
 
+class _NodesFound(Exception):
+    def __init__(self, n):
+        self.n = n
+
+
+def _r04_4_grid(ctx, out, fn):
+    """the default is not spelled `if nnodes is None: nnodes = <expr>` in the function itself (a helper, a conditional
+    expression ...): observe the number of nodes the function asks for, on a grid of exponents and degrees"""
+    def count(pdeg, a, b):
+        def hook(rn, ev, call, name, recv, args, kwargs):
+            if name == "isinstance":
+                return True
+            if name in ("open_linspace", "closed_linspace", "open_newton_cotes", "closed_newton_cotes", "gauss_legendre",
+                        "chebyshev") and args:
+                raise _NodesFound(args[0])
+            return NotImplemented
+        class Cv(StandIn):
+            degree, npts = pdeg, pdeg + 1
+
+            def derivate(self, times=1):
+                return Obj("dC", degree=max(pdeg - times, 0))
+        c = Cv()
+        try:
+            Runner(ctx, set(), hook).call_fn(fn, [c, a, b, None])
+        except _NodesFound as f:
+            return f.n
+        raise Undecided("the function does not ask for quadrature nodes")
+    try:
+        short = [(a, b, count(1, a, b)) for a in range(5) for b in range(5)]
+        short = [(a, b, n) for a, b, n in short if n < a + b + 1]
+        if short:
+            a, b, n = short[0]
+            out.bad(fn.qname, "default node count does not cover the degree of the integrand for straight segments",
+                    where=fn.where(), detail=f"(a, b) = ({a}, {b}): {n} nodes, the integrand has degree {a + b}")
+        else:
+            out.ok(fn.qname, "default nnodes >= a + b + 1 for a straight segment, a, b in 0..4 (observed by abstract run)",
+                   where=fn.where())
+        for pdeg in (1, 2, 3):
+            n = count(pdeg, 1, 0)
+            exact, need = (n if n % 2 else n - 1), 2 * pdeg - 1
+            if exact >= need:
+                out.ok(fn.qname, f"area integrand of a degree-{pdeg} segment (degree {need}): {n} nodes are exact", where=fn.where())
+            else:
+                out.bad(fn.qname, "default node count too small for the exact area of curved segments", where=fn.where(),
+                        detail=f"degree-{pdeg} segment: integrand x*y' has degree {need}, {n} nodes are exact only up to {exact}")
+    except (Undecided, Raised) as ex:
+        out.undecided(fn.qname, f"default node count not observable: {ex}", where=fn.where())
+    return out
+
+
 def r04_4(ctx):
     out = Outcome("R04.4", "for straight segments the default number of quadrature nodes exceeds the polynomial degree of "
                            "the integrand for all exponents a, b >= 0 (needed for exact rational moments of polygons)",
@@ -251,8 +301,7 @@ def r04_4(ctx):
                 if isinstance(st, ast.Assign) and pat.is_name(st.targets[0], "nnodes"):
                     dflt = st.value
     if dflt is None:
-        out.undecided(fn.qname, "default node count not found", where=fn.where())
-        return out
+        return _r04_4_grid(ctx, out, fn)
     try:
         count = expr_poly(dflt, {f"{cname}.degree": poly.const(1)})
     except Undecided as ex:
